@@ -2,6 +2,9 @@ import Amgcl.Proofs.SolverCG
 import Amgcl.Proofs.SolverBiCGStab
 import Amgcl.Proofs.SolverRichardson
 import Amgcl.Model.SolverPreonly
+import Amgcl.Proofs.SolverGMRES
+import Amgcl.Proofs.SolverFGMRES
+import Amgcl.Proofs.SolverLGMRES
 import Mathlib.Algebra.Order.Field.Rat
 /-!
 # C01 — a reported convergence is truthful: residual, iteration count, solution  (CG, BiCGStab, Richardson, preonly)
@@ -338,5 +341,167 @@ example : (BiCGStab.run { biPrm with maxiter := 0, checkAfter := true, tol := 1/
     (BiCGStab.Work.fresh 2) #[1, 3] #[1, 0]).obs = (.ok (0, 137/640), #[1, 0]) := by decide +kernel
 
 end nonvacuous
+
+/-! ## Second package: GMRES, FGMRES, LGMRES, IDR(s), BiCGStab(L)
+
+`gmres`, `fgmres`, `lgmres`, `idrs` use the norm `|sqrt⟨x,x⟩|` (`nrmA`, prologue `prologueA`); `bicgstabl` uses
+`sqrt|⟨x,x⟩|` (`nrm`, `prologue`) like the first package.
+
+For the three GMRES variants truthfulness is pure control flow: the outer `while(true)` has ONE exit, the `break`
+directly behind `r = f − A x` (left: `r = P(f − A x)`), `norm_r = norm(r)` (gmres.hpp:191-199, fgmres.hpp:177-181,
+lgmres.hpp:236-245).  Hence NO hypothesis on the matrix (not even well-formedness), on `P` (any function, also
+non-linear, for both sides), on the Arnoldi process, on `sqrt`, on the work arrays or — for LGMRES — on the
+augmentation vectors inherited from earlier calls. -/
+section gmresFamily
+variable {K : Type} [Field K] [DecidableEq K] [LT K] [DecidableLT K]
+
+/-- **GMRES reports the true (preconditioned) residual of the `x` it returns**: `res = ‖f − A x‖ / norm_rhs` (right)
+resp. `‖P(f − A x)‖ / norm_rhs` (left). -/
+theorem gmres_truthful (prm : GMRES.Params K) (ip : Vec K → Vec K → K) (sqrt : K → K) (eps : K) (A : CRS K)
+    (P : Vec K → Vec K) (ws : GMRES.Work K) (f x0 : Vec K) (it : Nat) (res : K) (x : Vec K) (w : GMRES.Work K)
+    (h : GMRES.solve prm ip sqrt eps A P ws f x0 = .ok (it, res, x, w)) :
+    res = reported (prologueA prm.nsSearch ip sqrt eps f) (nrmA ip sqrt (BiCGStab.Rf prm.pside P f A x)) := by
+  rw [GMRES.solve, Run.toExcept_ok] at h
+  cases hp : prologueA prm.nsSearch ip sqrt eps f with
+  | trivial n =>
+    rw [GMRES.run_trivial _ _ _ _ _ _ _ _ _ n hp] at h
+    simp only [Prod.mk.injEq, Except.ok.injEq] at h
+    simp [reported, h.1.2]
+  | go nf =>
+    rw [GMRES.run_go _ _ _ _ _ _ _ _ _ nf hp] at h
+    simp only [Prod.mk.injEq, Except.ok.injEq] at h
+    obtain ⟨⟨_, h2⟩, h3, _⟩ := h
+    obtain ⟨_, i2⟩ := GMRES.final_inv prm ip sqrt A P ws f x0 nf
+    simp only [reported]
+    rw [← h2, ← h3, i2]
+
+/-- **FGMRES reports the true residual of the `x` it returns**: `res = ‖f − A x‖ / norm_rhs`. -/
+theorem fgmres_truthful (prm : FGMRES.Params K) (ip : Vec K → Vec K → K) (sqrt : K → K) (eps : K) (A : CRS K)
+    (P : Vec K → Vec K) (ws : FGMRES.Work K) (f x0 : Vec K) (it : Nat) (res : K) (x : Vec K) (w : FGMRES.Work K)
+    (h : FGMRES.solve prm ip sqrt eps A P ws f x0 = .ok (it, res, x, w)) :
+    res = reported (prologueA prm.nsSearch ip sqrt eps f) (nrmA ip sqrt (residual f A x)) := by
+  rw [FGMRES.solve, Run.toExcept_ok] at h
+  cases hp : prologueA prm.nsSearch ip sqrt eps f with
+  | trivial n =>
+    rw [FGMRES.run_trivial _ _ _ _ _ _ _ _ _ n hp] at h
+    simp only [Prod.mk.injEq, Except.ok.injEq] at h
+    simp [reported, h.1.2]
+  | go nf =>
+    rw [FGMRES.run_go _ _ _ _ _ _ _ _ _ nf hp] at h
+    simp only [Prod.mk.injEq, Except.ok.injEq] at h
+    obtain ⟨⟨_, h2⟩, h3, _⟩ := h
+    obtain ⟨_, i2⟩ := FGMRES.final_inv prm ip sqrt A P ws f x0 nf
+    simp only [reported]
+    rw [← h2, ← h3, i2]
+
+/-- **LGMRES reports the true (preconditioned) residual of the `x` it returns** — whatever augmentation vectors the
+object carries from earlier calls (`always_reset` on or off). -/
+theorem lgmres_truthful (prm : LGMRES.Params K) (ip : Vec K → Vec K → K) (sqrt : K → K) (eps : K) (A : CRS K)
+    (P : Vec K → Vec K) (ws : LGMRES.Work K) (f x0 : Vec K) (it : Nat) (res : K) (x : Vec K) (w : LGMRES.Work K)
+    (h : LGMRES.solve prm ip sqrt eps A P ws f x0 = .ok (it, res, x, w)) :
+    res = reported (prologueA prm.nsSearch ip sqrt eps f) (nrmA ip sqrt (BiCGStab.Rf prm.pside P f A x)) := by
+  rw [LGMRES.solve, Run.toExcept_ok] at h
+  cases hp : prologueA prm.nsSearch ip sqrt eps f with
+  | trivial n =>
+    rw [LGMRES.run_trivial _ _ _ _ _ _ _ _ _ n hp] at h
+    simp only [Prod.mk.injEq, Except.ok.injEq] at h
+    simp [reported, h.1.2]
+  | go nf =>
+    rw [LGMRES.run_go _ _ _ _ _ _ _ _ _ nf hp] at h
+    simp only [Prod.mk.injEq, Except.ok.injEq] at h
+    obtain ⟨⟨_, h2⟩, h3, _⟩ := h
+    obtain ⟨_, i2⟩ := LGMRES.final_inv prm ip sqrt A P (LGMRES.reset prm ws) f x0 nf
+    simp only [reported]
+    rw [← h2, ← h3, i2]
+
+/-- the iteration count of GMRES never exceeds the configured maximum (restarts included) -/
+theorem gmres_iter_le_maxiter (prm : GMRES.Params K) (ip : Vec K → Vec K → K) (sqrt : K → K) (eps : K) (A : CRS K)
+    (P : Vec K → Vec K) (ws : GMRES.Work K) (f x0 : Vec K) (it : Nat) (res : K) (x : Vec K) (w : GMRES.Work K)
+    (h : GMRES.solve prm ip sqrt eps A P ws f x0 = .ok (it, res, x, w)) : it ≤ prm.maxiter := by
+  rw [GMRES.solve, Run.toExcept_ok] at h
+  cases hp : prologueA prm.nsSearch ip sqrt eps f with
+  | trivial n =>
+    rw [GMRES.run_trivial _ _ _ _ _ _ _ _ _ n hp] at h
+    simp only [Prod.mk.injEq, Except.ok.injEq] at h
+    omega
+  | go nf =>
+    rw [GMRES.run_go _ _ _ _ _ _ _ _ _ nf hp] at h
+    simp only [Prod.mk.injEq, Except.ok.injEq] at h
+    rw [← h.1.1]
+    exact GMRES.final_iter_le prm ip sqrt A P ws f x0 nf
+
+theorem fgmres_iter_le_maxiter (prm : FGMRES.Params K) (ip : Vec K → Vec K → K) (sqrt : K → K) (eps : K)
+    (A : CRS K) (P : Vec K → Vec K) (ws : FGMRES.Work K) (f x0 : Vec K) (it : Nat) (res : K) (x : Vec K)
+    (w : FGMRES.Work K) (h : FGMRES.solve prm ip sqrt eps A P ws f x0 = .ok (it, res, x, w)) :
+    it ≤ prm.maxiter := by
+  rw [FGMRES.solve, Run.toExcept_ok] at h
+  cases hp : prologueA prm.nsSearch ip sqrt eps f with
+  | trivial n =>
+    rw [FGMRES.run_trivial _ _ _ _ _ _ _ _ _ n hp] at h
+    simp only [Prod.mk.injEq, Except.ok.injEq] at h
+    omega
+  | go nf =>
+    rw [FGMRES.run_go _ _ _ _ _ _ _ _ _ nf hp] at h
+    simp only [Prod.mk.injEq, Except.ok.injEq] at h
+    rw [← h.1.1]
+    exact FGMRES.final_iter_le prm ip sqrt A P ws f x0 nf
+
+theorem lgmres_iter_le_maxiter (prm : LGMRES.Params K) (ip : Vec K → Vec K → K) (sqrt : K → K) (eps : K)
+    (A : CRS K) (P : Vec K → Vec K) (ws : LGMRES.Work K) (f x0 : Vec K) (it : Nat) (res : K) (x : Vec K)
+    (w : LGMRES.Work K) (h : LGMRES.solve prm ip sqrt eps A P ws f x0 = .ok (it, res, x, w)) :
+    it ≤ prm.maxiter := by
+  rw [LGMRES.solve, Run.toExcept_ok] at h
+  cases hp : prologueA prm.nsSearch ip sqrt eps f with
+  | trivial n =>
+    rw [LGMRES.run_trivial _ _ _ _ _ _ _ _ _ n hp] at h
+    simp only [Prod.mk.injEq, Except.ok.injEq] at h
+    omega
+  | go nf =>
+    rw [LGMRES.run_go _ _ _ _ _ _ _ _ _ nf hp] at h
+    simp only [Prod.mk.injEq, Except.ok.injEq] at h
+    rw [← h.1.1]
+    exact LGMRES.final_iter_le prm ip sqrt A P _ f x0 nf
+
+/-- GMRES stops only through its stopping test: on return `norm_r < eps` or `iter ≥ maxiter` holds for the very
+numbers that are reported (the fuel of the modelled loops is never the reason for the exit) -/
+theorem gmres_stops_only_when_done (prm : GMRES.Params K) (ip : Vec K → Vec K → K) (sqrt : K → K) (eps : K)
+    (A : CRS K) (P : Vec K → Vec K) (ws : GMRES.Work K) (f x0 : Vec K) (nf : K)
+    (hp : prologueA prm.nsSearch ip sqrt eps f = .go nf)
+    (it : Nat) (res : K) (x : Vec K) (w : GMRES.Work K)
+    (h : GMRES.solve prm ip sqrt eps A P ws f x0 = .ok (it, res, x, w)) :
+    nrmA ip sqrt (BiCGStab.Rf prm.pside P f A x) < GMRES.epsTol prm nf ∨ prm.maxiter ≤ it := by
+  rw [GMRES.solve, Run.toExcept_ok, GMRES.run_go _ _ _ _ _ _ _ _ _ nf hp] at h
+  simp only [Prod.mk.injEq, Except.ok.injEq] at h
+  obtain ⟨⟨h1, _⟩, h3, _⟩ := h
+  have hs := GMRES.outer_fuel_ok prm ip sqrt A P ws f x0 nf
+  obtain ⟨_, i2⟩ := GMRES.final_inv prm ip sqrt A P ws f x0 nf
+  simp only [GMRES.stop, Bool.or_eq_true, decide_eq_true_eq] at hs
+  rw [i2, h1, h3] at hs
+  exact hs
+
+end gmresFamily
+
+section gmresOrdered
+variable {K : Type} [Field K] [LinearOrder K] [IsStrictOrderedRing K]
+
+/-- the `nrmA` flavour of `below_tol_means_solved` (for gmres / fgmres / lgmres / idrs) -/
+theorem below_tol_means_solved_A (ns : Bool) (ip : Vec K → Vec K → K) (sqrt : K → K) (eps : K) (heps : 0 < eps)
+    (f R : Vec K) (nf tol res : K) (hp : prologueA ns ip sqrt eps f = .go nf)
+    (htruth : res = reported (prologueA ns ip sqrt eps f) (nrmA ip sqrt R)) (hlt : res < tol) :
+    nrmA ip sqrt R < tol * nf := by
+  rw [hp] at htruth
+  simp only [reported] at htruth
+  exact below_tol_of_div _ _ _ (prologueA_go_pos ns ip sqrt eps heps f nf hp) (htruth ▸ hlt)
+
+theorem gmres_below_tol_means_solved (prm : GMRES.Params K) (ip : Vec K → Vec K → K) (sqrt : K → K) (eps : K)
+    (heps : 0 < eps) (A : CRS K) (P : Vec K → Vec K) (ws : GMRES.Work K) (f x0 : Vec K) (it : Nat) (res : K)
+    (x : Vec K) (w : GMRES.Work K) (nf : K)
+    (h : GMRES.solve prm ip sqrt eps A P ws f x0 = .ok (it, res, x, w))
+    (hp : prologueA prm.nsSearch ip sqrt eps f = .go nf) (hlt : res < prm.tol) :
+    nrmA ip sqrt (BiCGStab.Rf prm.pside P f A x) < prm.tol * nf :=
+  below_tol_means_solved_A prm.nsSearch ip sqrt eps heps f _ nf prm.tol res hp
+    (gmres_truthful prm ip sqrt eps A P ws f x0 it res x w h) hlt
+
+end gmresOrdered
 
 end Amgcl.C01
